@@ -131,6 +131,38 @@ def keyword_oracle(tier, seed):
                     if not okc:
                         key = "C10:reduction-with-keyword-labels:" + sig
                         fails.append({"key": key, "clause": key, "ops": [{"f": fname, "kw": sorted(kw), "axis": str(ax), "dims": list(got.dims), "shape": list(gv.shape)}]})
+    # a second data object handed over BY KEYWORD: the answer is NumPy's for the actual operands, whichever way they arrive
+    base = np.arange(12.0).reshape(3, 4)
+    a = dnp.DNPData(base.copy(), ["x", "y"], [np.arange(3.0), np.arange(4.0)])
+    b = dnp.DNPData(base[::-1].copy() * 2.0 + 1.0, ["x", "y"], [np.arange(3.0), np.arange(4.0)])
+    p1 = dnp.DNPData(np.array([1.0, 2.0, 3.0]), ["x"], [np.arange(3.0)])
+    q1 = dnp.DNPData(np.array([-1.0, 0.5, 4.0]), ["x"], [np.arange(3.0)])
+    probes = [("allclose-b", lambda: np.allclose(a, b=b), lambda: np.allclose(a.values, b.values)),
+              ("allclose-a-b", lambda: np.allclose(a=b, b=a), lambda: np.allclose(b.values, a.values)),
+              ("array_equal-a2", lambda: np.array_equal(a, a2=b), lambda: np.array_equal(a.values, b.values)),
+              ("array_equal-same", lambda: np.array_equal(a, a2=a.copy()), lambda: True),
+              ("dot-b", lambda: np.dot(p1, b=q1), lambda: np.dot(p1.values, q1.values)),
+              ("dot-a-b", lambda: np.dot(a=q1, b=p1), lambda: np.dot(q1.values, p1.values)),
+              ("add-x2", lambda: np.add(a, x2=b), lambda: a.values + b.values),
+              ("subtract-x1-x2", lambda: np.subtract(x1=b, x2=a), lambda: b.values - a.values),
+              ("where-mask", lambda: np.sum(a, axis="x", where=(b.values > 5)), lambda: np.sum(a.values, axis=0, where=(b.values > 5))),
+              ("isclose-b", lambda: np.isclose(a, b=b), lambda: np.isclose(a.values, b.values))]
+    for nm, got_f, want_f in probes:
+        n_eval += 1
+        with warnings.catch_warnings():
+            warnings.simplefilter("ignore")
+            try:
+                want = want_f()
+            except Exception:  # noqa: BLE001
+                continue
+            try:
+                got = got_f()
+            except Exception:  # noqa: BLE001   (a call form the protocol hooks refuse is not a wrong answer)
+                continue
+        gv = np.asarray(got.values if isinstance(got, dnp.DNPData) else got)
+        if gv.shape != np.shape(want) or not np.array_equal(gv, np.asarray(want)):
+            key = "C10:operand-passed-by-keyword:" + nm
+            fails.append({"key": key, "clause": key, "ops": [{"call": nm, "got": gv.tolist() if gv.size < 20 else "…", "want": np.asarray(want).tolist() if np.size(want) < 20 else "…"}]})
     return fails, n_eval
 
 
